@@ -84,6 +84,58 @@ impl TaskFlag {
 }
 
 // ---------------------------------------------------------------------------------------------
+// Every child waker the environment holds is wrapped, so that the environment's own books say how
+// many wakers point into a waker block (independent of the crate's clone/drop probes).
+
+pub struct HW(Option<Waker>);
+impl HW {
+    fn new(w: Waker) -> HW {
+        reg::held(w.data() as usize, 1);
+        HW(Some(w))
+    }
+    fn dup(&self) -> HW {
+        let w = self.0.as_ref().unwrap();
+        let a = w.data() as usize;
+        reg::in_call(a, true);
+        let c = w.clone();
+        reg::in_call(a, false);
+        HW::new(c)
+    }
+    fn wake(mut self) {
+        let w = self.0.take().unwrap();
+        let a = w.data() as usize;
+        // from here on the reference belongs to the crate's `wake`
+        reg::held(a, -1);
+        reg::in_call(a, true);
+        w.wake();
+        reg::in_call(a, false);
+    }
+    fn wake_by_ref(&self) {
+        let w = self.0.as_ref().unwrap();
+        let a = w.data() as usize;
+        reg::in_call(a, true);
+        w.wake_by_ref();
+        reg::in_call(a, false);
+    }
+}
+impl Drop for HW {
+    fn drop(&mut self) {
+        if let Some(w) = self.0.take() {
+            if std::thread::panicking() {
+                // a violation is being reported: the block may be gone, do not run crate code on it
+                std::mem::forget(w);
+                return;
+            }
+            let a = w.data() as usize;
+            reg::held(a, -1);
+            reg::in_call(a, true);
+            drop(w);
+            reg::in_call(a, false);
+        }
+    }
+}
+
+// ---------------------------------------------------------------------------------------------
 // children
 
 struct ChanSt {
@@ -91,7 +143,7 @@ struct ChanSt {
     /// streams: items available
     avail: u32,
     closed: bool,
-    waker: Option<Waker>,
+    waker: Option<HW>,
     done: bool,
     polled_after_done: bool,
 }
@@ -130,7 +182,7 @@ impl Future for ChanFut {
             Poll::Ready(self.id)
         } else {
             CLONES.fetch_add(1, Ordering::Relaxed);
-            let w = cx.waker().clone();
+            let w = HW::new(cx.waker().clone());
             let old = st.waker.replace(w);
             drop(st);
             drop(old);
@@ -163,7 +215,7 @@ impl Stream for ChanStream {
             Poll::Ready(None)
         } else {
             CLONES.fetch_add(1, Ordering::Relaxed);
-            let w = cx.waker().clone();
+            let w = HW::new(cx.waker().clone());
             let old = st.waker.replace(w);
             drop(st);
             drop(old);
@@ -284,7 +336,7 @@ enum WOp {
     Burst,
 }
 
-fn invoke(w: Waker, by_ref: bool) {
+fn invoke(w: HW, by_ref: bool) {
     WAKES.fetch_add(1, Ordering::Relaxed);
     if IN_POLL.with(|p| p.get()) {
         WAKES_DURING_POLL.fetch_add(1, Ordering::Relaxed);
@@ -324,7 +376,7 @@ fn waker_thread(chans: Vec<(Arc<Chan>, bool, u32)>, ops: Vec<(usize, WOp)>, gate
     if let Some(g) = gate {
         g.wait();
     }
-    let mut kept: Vec<(usize, Waker)> = vec![];
+    let mut kept: Vec<(usize, HW)> = vec![];
     let mut fired = vec![0u32; chans.len()];
     for (c, op) in ops {
         let (ch, is_stream, items) = &chans[c];
@@ -349,31 +401,31 @@ fn waker_thread(chans: Vec<(Arc<Chan>, bool, u32)>, ops: Vec<(usize, WOp)>, gate
                 }
             }
             WOp::SpuriousRef => {
-                let w = ch.st.lock().unwrap().waker.clone();
+                let w = ch.st.lock().unwrap().waker.as_ref().map(|w| w.dup());
                 if let Some(w) = w {
                     invoke(w, true);
                 }
             }
             WOp::CloneWake => {
-                let w = ch.st.lock().unwrap().waker.clone();
+                let w = ch.st.lock().unwrap().waker.as_ref().map(|w| w.dup());
                 if let Some(w) = w {
-                    let w2 = w.clone();
+                    let w2 = w.dup();
                     drop(w);
                     invoke(w2, false);
                 }
             }
             WOp::CloneDrop => {
-                let w = ch.st.lock().unwrap().waker.clone();
+                let w = ch.st.lock().unwrap().waker.as_ref().map(|w| w.dup());
                 drop(w);
             }
             WOp::Keep => {
-                let w = ch.st.lock().unwrap().waker.clone();
+                let w = ch.st.lock().unwrap().waker.as_ref().map(|w| w.dup());
                 if let Some(w) = w {
                     kept.push((c, w));
                 }
             }
             WOp::Burst => {
-                let w = ch.st.lock().unwrap().waker.clone();
+                let w = ch.st.lock().unwrap().waker.as_ref().map(|w| w.dup());
                 if let Some(w) = w {
                     for _ in 0..3 {
                         WAKES.fetch_add(1, Ordering::Relaxed);
